@@ -36,6 +36,7 @@ Proof.
   - intros po pc w1 e IHe w2 H. cbn [readable_operand]. apply IHe. intros t Ht. apply H. cbn [toks_operand]. right.
     apply in_or_app. right. apply in_or_app. left. exact Ht.
   - intros name po pc a _ H. apply (H (WORD, name)). left. reflexivity.
+  - intros first ms H. apply (H (WORD, first)). left. reflexivity.
   - intros x IHx r IHr H. cbn [readable_expr]. split; [apply IHx|apply IHr]; intros t Ht; apply H; cbn [toks_expr]; apply in_or_app; tauto.
   - intros wb a txt wa x IHx r IHr H. cbn [readable_tail]. split; [apply IHx|apply IHr]; intros t Ht; apply H; cbn [toks_tail];
       apply in_or_app; right; right; apply in_or_app; right; apply in_or_app; tauto.
@@ -90,6 +91,7 @@ Fixpoint skel_operand (x : operand) : operand :=
   | Pct t _ pt => Pct t [] pt
   | Paren po pc _ e _ => Paren po pc [] (skel_expr e) []
   | Call name po pc a => Call name po pc a
+  | Fact first ms => Fact first ms
   end
 with skel_expr (e : ParseChains.expr) : ParseChains.expr := match e with Chain x r => Chain (skel_operand x) (skel_tail r) end
 with skel_tail (r : tail) : tail :=
@@ -117,6 +119,7 @@ Proof.
   - reflexivity.
   - reflexivity.
   - intros po pc w1 e IHe w2. cbn [skel_operand sem_operand]. exact IHe.
+  - reflexivity.
   - reflexivity.
   - intros x IHx r (Hp & Hs & Hb). cbn [skel_expr sem_expr]. rewrite Hp. apply texpr_ext.
     + intros [|n]; [exact IHx|apply Hs].
